@@ -27,8 +27,15 @@ THEOREMS = ['Props.C19.' + t for t in [
     'incon_transfer_underground', 'incon_transfer_atmosphere_single', 'incon_average_value',
     'incon_transfer_atmosphere_percolumn', 'incon_transfer_total_partial', 'incon_transfer_source_unaltered', 'incon_heap_model_agrees',
     'rocktype_transfer_spec', 'rocktype_transfer_identity',
-    'generator_transfer_identity', 'generator_totals_identity']]
-LEVEL_TEXT = ('Proof: 19 Lean theorems (no sorry) about an executable model of mulgrid.block_mapping / column_mapping / layer_mapping / '
+    'generator_transfer_identity', 'generator_totals_identity',
+    # round 3
+    'layer_mapping_nearest_first', 'nearestIdx_is_nearest', 'nearestIdx_first_minimum',
+    'block_mapping_total_nearestIdx_partial', 'block_mapping_spec_nearestIdx_partial',
+    'block_mapping_atmosphere_nearestIdx_partial', 'incon_transfer_total_nearestIdx_partial',
+    'block_mapping_identity_nearestIdx', 'block_mapping_keyerror_nearestIdx',
+    'block_mapping_identity_same_grid_partial', 'block_mapping_identity_same_grid_nearestIdx_partial',
+    'generator_transfer_interior', 'generator_transfer_column']]
+LEVEL_TEXT = ('Proof: 32 Lean theorems (no sorry) about an executable model of mulgrid.block_mapping / column_mapping / layer_mapping / '
               'column_surface_layer, t2incon.transfer_from (functional and object-heap versions) and t2data.transfer_generators_from / '
               'transfer_rocktypes_from: block_mapping returns and is total, underground blocks go to existing source blocks, atmosphere blocks to '
               'the source\'s corresponding atmosphere block; the image is the nearest column x nearest layer, moved to the column\'s first '
@@ -38,7 +45,22 @@ LEVEL_TEXT = ('Proof: 19 Lean theorems (no sorry) about an executable model of m
               'rock types follow the mapping; onto an identical geometry every generator and hence every total is reproduced item for item '
               '(top/bottom/interior, tables, rename, preserve_totals). PARTIAL: totality statements hold for 7 of the 9 atmosphere combinations; '
               'for source type 1 or 2 onto target type 0 block_mapping raises KeyError (known finding, not repaired): proved on two concrete '
-              'witnesses and in general. Tied to /repo on every run by correspondence (names, block_mapping incl. the scipy-less fallback and '
+              'witnesses and in general. Round 3: layer_mapping_nearest_first - for arbitrary (unordered) layer structures layer_mapping returns, sends '
+              'the atmosphere layer to the atmosphere layer and every other layer to the source layer of minimal |centre difference|, the FIRST such '
+              '(strictly nearer than every earlier layer: np.argmin tie rule). nearestIdx_is_nearest / nearestIdx_first_minimum - a concrete linear-scan '
+              'nearest-neighbour function over exact squared distances returns an index of minimal distance, the first one. '
+              'block_mapping_total/spec/atmosphere_nearestIdx_partial, incon_transfer_total_nearestIdx_partial, block_mapping_identity_nearestIdx, '
+              'block_mapping_keyerror_nearestIdx - the six theorems that assumed IsNearest q, instantiated at nearestIdx (no uninterpreted parameter left; '
+              'the _partial ones still exclude source atmosphere 1/2 -> target 0). block_mapping_identity_same_grid_partial (+ _nearestIdx_partial) - the same grid '
+              '(same convention, columns, layers; distinct centres) with INDEPENDENT atmosphere types and block orders: for all 7 combinations that return, every '
+              'underground block and column maps to itself, single->single atmosphere is the identity, a per-column atmosphere block keeps its name for source '
+              'type 1/2 and goes to the single atmosphere block for source type 0. generator_transfer_interior / generator_transfer_column - between ANY two '
+              'geometries, whenever transfer_generators_from returns: the new list is the concatenation, by source position (repeated names covered), of one '
+              'copy per target block mapped to the generator\'s block (interior) resp. per inside target column mapped to its column, placed on that column\'s '
+              'top or bottom block (column generators), with the volume/area scaling of gx and rate for preserve_totals on and off and the name rule for rename on and off. '
+              'NOT proved: that the scaled gx of the copies sum to the source gx under preserve_totals (only the per-copy factor is stated); '
+              'totality of transfer_generators_from between different geometries; that cKDTree.query itself meets IsNearest (assumption, checked '
+              'per explored case); which of several equidistant columns cKDTree returns. Tied to /repo on every run by correspondence (names, block_mapping incl. the scipy-less fallback and '
               'geometries outside the hypotheses, incon transfer in both models, generator/rock/print-block/incon-dict transfer) and a direct oracle.')
 LEVEL_NOTE = ('Trusted: Lean kernel (+propext, Classical.choice, Quot.sound); scipy cKDTree.query is a parameter of the model constrained by '
               'IsNearest (its actual choices are checked in exact arithmetic on every explored pair; ties are replayed through the model as a table); '
